@@ -82,9 +82,11 @@ class RotationCorrection(darsia.BaseCorrection):
                     scaling = -1 if reverted else 1
                     rotation = Rotation.from_rotvec(scaling * degree * vector)
                     self.rotation = np.matmul(self.rotation, rotation.as_matrix())
-                    rotation_inv = Rotation.from_rotvec(-degree * vector)
+                    # The inverse of a product is the product of the inverses in
+                    # reversed order.
+                    rotation_inv = Rotation.from_rotvec(-scaling * degree * vector)
                     self.rotation_inv = np.matmul(
-                        self.rotation_inv, rotation_inv.as_matrix()
+                        rotation_inv.as_matrix(), self.rotation_inv
                     )
 
     def correct_array(self, img: np.ndarray) -> np.ndarray:
